@@ -113,12 +113,12 @@ def jws_verify(alg, jwk, signing_input: bytes, sig: bytes) -> bool:
                 return False
             return hmac.compare_digest(hmac.new(b64d(jwk["k"]), signing_input, getattr(hashlib, "sha" + alg[2:])).digest(), sig)
         if alg.startswith("RS") and alg[2:] in HASH:
-            if jwk["kty"] != "RSA":
+            if jwk["kty"] != "RSA" or len(sig) != (pub_native(jwk).key_size + 7) // 8:      # RFC 8017 8.2.2 step 1
                 return False
             pub_native(jwk).verify(sig, signing_input, padding.PKCS1v15(), HASH[alg[2:]]())
             return True
         if alg.startswith("PS") and alg[2:] in HASH:
-            if jwk["kty"] != "RSA":
+            if jwk["kty"] != "RSA" or len(sig) != (pub_native(jwk).key_size + 7) // 8:      # RFC 8017 8.1.2 step 1
                 return False
             h = HASH[alg[2:]]
             pub_native(jwk).verify(sig, signing_input, padding.PSS(padding.MGF1(h()), h.digest_size), h())
